@@ -36,6 +36,11 @@ CHECKS = {
         text='Exploration. Event traces of the real Visitor.walk/walkabout are recorded at the dispatch boundary and compared, per visitor, with the trace the documented contract requires, and run through a balance/nesting/order automaton. The bounded space of the property (all trees of <=4 nodes x 5^n pruning assignments x 16 timing subsets, both traversals) is completed on every run; the real ASTBuilder with its real extensions plus four recording extensions is traced on real packages and generated modules, and its scope stack is checked after every module.',
         note='The contract is the one in the docstrings of pydoctor/visitor.py as transcribed in vf/ref/visitor_ref.py; prunings raised by extensions are outside the statement; visits made through generic_visit are visit-only by design.',
         ref='4/C19'),
+    'C20': dict(
+        technique='differential monitor between the two front doors of the real option parser (Options.from_args with flags vs with a generated pyproject.toml / setup.cfg / pydoctor.ini in the working directory), with the accepting parser observed through wrapped TomlConfigParser/IniConfigParser.parse, plus quoting round trips exhaustive over a quoting-relevant alphabet',
+        text='Exploration. Every action of the real argument parser is enumerated at run time; for each, representative and adversarial values are written in every spelling the three file formats document and the resulting Options object is compared field by field with the command-line equivalent (same directory, file absent). Command-line-over-file override, accumulation order of repeatable options, unknown keys (warning, no abort, no effect) and the round trip of every string of length<=3/4 through the files and <=4/5 through unquote_str are checked. tomllib is used to attribute disagreements caused by the third-party toml parser.',
+        note='INI syntax is configparser with default options as the manual states (%% for a percent sign, full-line comments); precedence among several files and invalid values that have no command-line equivalent are counted but not judged because the statement does not cover them.',
+        ref='4/C20'),
 }
 
 NOT_APPLICABLE = {
